@@ -16,6 +16,7 @@ import (
 	"encoding/json"
 	"errors"
 	"fmt"
+	"io"
 	"math"
 	"sort"
 	"strings"
@@ -27,7 +28,7 @@ import (
 )
 
 type c10Op struct {
-	Op   string  `json:"op"` // sub tag timer rec pass start hist hstart stop call exec
+	Op   string  `json:"op"` // sub tag timer rec pass start hist hstart stop call exec close
 	H    int     `json:"h"`  // the handle the call is made on
 	Name B       `json:"name,omitempty"`
 	Tags map[B]B `json:"tags,omitempty"`
@@ -52,6 +53,11 @@ type c10Case struct {
 	// Sched is the order in which the schedule controller resumes the threads.
 	Threads [][]c10Op `json:"threads,omitempty"`
 	Sched   []int     `json:"sched,omitempty"`
+	// Storm = [G, N] (c10conc.go): G goroutines record N distinct values each on one
+	// existing timer at the same time, unscheduled (there is no scheduling point
+	// inside Record); not sent to the model. Ops is the prelude (sub / tag), the
+	// timer lives in the last scope.
+	Storm []int `json:"storm,omitempty"`
 	// San: ScopeOptions.SanitizeOptions of the root scope (nil = none; reporter-backed flavours only)
 	San *c10San `json:"san,omitempty"`
 }
@@ -237,7 +243,78 @@ type c10Scope struct {
 	prefix string // sanitized
 	tags   map[string]string
 	z      *c10Sanz
+	g      *c10Reg
 }
+
+// c10Reg: which scopes have been closed / dropped from the registry, and how
+// often each scope's metric tables were cleared, from the documented life
+// cycle alone: Close() marks a scope; the next report pass reports it one last
+// time, drops it and clears its tables (a name requested from it afterwards is
+// a new metric); closing the root runs a final report pass and then closes,
+// clears and drops every scope still registered; report passes stop. A test
+// scope has no reporter: nothing is ever reported or dropped.
+type c10Reg struct {
+	root       string
+	known      []string
+	ep         map[string]int
+	closed     []string
+	dropped    map[string]bool
+	rootClosed bool
+	test       bool
+}
+
+func (s c10Scope) id() string { return fmt.Sprintf("%q|%q", s.prefix, nameTags("", s.tags)) }
+func (g *c10Reg) note(id string) {
+	for _, k := range g.known {
+		if k == id {
+			return
+		}
+	}
+	g.known = append(g.known, id)
+}
+func (g *c10Reg) isClosed(id string) bool {
+	if g.dropped[id] || g.rootClosed {
+		return true
+	}
+	for _, k := range g.closed {
+		if k == id {
+			return true
+		}
+	}
+	return false
+}
+func (g *c10Reg) pass() {
+	if g.rootClosed || g.test {
+		return
+	}
+	for _, id := range g.closed {
+		g.ep[id]++
+		g.dropped[id] = true
+	}
+	g.closed = nil
+}
+func (g *c10Reg) close(id string) {
+	if g.rootClosed {
+		return
+	}
+	if id != g.root {
+		if !g.isClosed(id) {
+			g.closed = append(g.closed, id)
+		}
+		return
+	}
+	if !g.test {
+		for _, k := range g.known {
+			if !g.dropped[k] {
+				g.ep[k]++
+				g.dropped[k] = true
+			}
+		}
+		g.closed = nil
+	}
+	g.rootClosed = true
+}
+
 type c10Metric struct {
 	obj  string   // identity of the metric object: scope (prefix, tags) and name
 	strs []string // fully qualified name, then the tags sorted by key
@@ -272,13 +349,13 @@ func mergeTags(a, b map[string]string) map[string]string {
 func (s c10Scope) metric(name string) c10Metric {
 	name = s.z.sn(name)
 	st := nameTags(s.z.fqn(s.prefix, name), s.tags)
-	return c10Metric{obj: fmt.Sprintf("%q|%q|%q", s.prefix, nameTags("", s.tags), name), strs: st}
+	return c10Metric{obj: fmt.Sprintf("%s|%q|%d", s.id(), name, s.g.ep[s.id()]), strs: st}
 }
 func (s c10Scope) sub(name string) c10Scope {
-	return c10Scope{s.z.fqn(s.prefix, s.z.sn(name)), s.tags, s.z}
+	return c10Scope{s.z.fqn(s.prefix, s.z.sn(name)), s.tags, s.z, s.g}
 }
 func (s c10Scope) tagged(t map[string]string) c10Scope {
-	return c10Scope{s.prefix, mergeTags(s.tags, s.z.stags(t)), s.z}
+	return c10Scope{s.prefix, mergeTags(s.tags, s.z.stags(t)), s.z, s.g}
 }
 func (s c10Scope) callMetrics(name string) c10Call {
 	e := s.tagged(map[string]string{"result_type": "error"})
@@ -306,7 +383,11 @@ func (b *c10Book) note(kind int, m c10Metric) {
 
 func newBook(c *c10Case) *c10Book {
 	z := c.San.fns()
-	return &c10Book{scopes: []c10Scope{{z.sn(string(c.Prefix)), z.stags(tagsOf(c.Tags)), z}}}
+	g := &c10Reg{ep: map[string]int{}, dropped: map[string]bool{}, test: c.Flavour == 2}
+	root := c10Scope{z.sn(string(c.Prefix)), z.stags(tagsOf(c.Tags)), z, g}
+	g.root = root.id()
+	g.note(g.root)
+	return &c10Book{scopes: []c10Scope{root}}
 }
 
 // apply updates the book for one op; clockAt is the number of clock readings
@@ -316,9 +397,11 @@ func (b *c10Book) apply(o c10Op, clock func(int) int64, clockAt int) int {
 	case "sub":
 		s := b.scopes[o.H]
 		b.scopes = append(b.scopes, s.sub(string(o.Name)))
+		s.g.note(b.scopes[len(b.scopes)-1].id())
 	case "tag":
 		s := b.scopes[o.H]
 		b.scopes = append(b.scopes, s.tagged(tagsOf(o.Tags)))
+		s.g.note(b.scopes[len(b.scopes)-1].id())
 	case "timer":
 		m := b.scopes[o.H].metric(string(o.Name))
 		b.note(0, m)
@@ -335,7 +418,15 @@ func (b *c10Book) apply(o c10Op, clock func(int) int64, clockAt int) int {
 		return 1
 	case "stop":
 		return 1
+	case "pass":
+		b.scopes[0].g.pass()
+	case "close":
+		b.scopes[0].g.close(b.scopes[o.H].id())
 	case "call":
+		sc := b.scopes[o.H]
+		sc.g.note(sc.tagged(map[string]string{"result_type": "error"}).id())
+		sc.g.note(sc.tagged(map[string]string{"result_type": "success"}).id())
+		sc.g.note(sc.sub(string(o.Name)).id())
 		cm := b.scopes[o.H].callMetrics(string(o.Name))
 		b.note(1, cm.errC)
 		b.note(1, cm.okC)
@@ -517,6 +608,12 @@ func c10Snapshot(ts tally.TestScope) (all []Ev) {
 // c10Run drives the real code. Returns the input events, the observed events
 // and the first failure of the direct predicate ("" = none).
 func c10Run(c *c10Case) (in []Ev, obs []Ev, fail string) {
+	allocFail := ""
+	defer func() {
+		if fail == "" {
+			fail = allocFail
+		}
+	}()
 	log := &Log{}
 	var root tally.Scope
 	var ts tally.TestScope
@@ -608,6 +705,11 @@ func c10Run(c *c10Case) (in []Ev, obs []Ev, fail string) {
 		case "pass":
 			tally.VerifReportOnce(root)
 			in = append(in, Ev{K: 45})
+		case "close":
+			if cl, ok := scopes[o.H].(io.Closer); ok {
+				cl.Close()
+			}
+			in = append(in, Ev{K: 52, I: []int64{int64(o.H)}})
 		case "start":
 			sws = append(sws, timers[o.H].Start())
 			in = append(in, Ev{K: 46, I: []int64{int64(o.H)}})
@@ -719,7 +821,10 @@ func c10Run(c *c10Case) (in []Ev, obs []Ev, fail string) {
 			}
 			if m := c10Allocates(bk, o); (c.Flavour == 1 || c.Flavour == 3) && m != nil && nA == 0 {
 				if _, ok := cachedID[m.obj]; !ok {
-					failf(j, "no AllocateTimer for the new timer %q", m.strs)
+					// kept aside: if a Record on this timer is then not delivered, that is the failure to report
+					if allocFail == "" {
+						allocFail = fmt.Sprintf("op %d (%s): no AllocateTimer for the new timer %q", j, c.Ops[j].Op, m.strs)
+					}
 				}
 			}
 			if expT != nil && nT != 1 {
@@ -886,7 +991,7 @@ func c10Term(idx int, c *c10Case, in, obs []Ev) string {
 func init() {
 	props["C10"] = func(ctx *Ctx) {
 		ctx.Header("TimerCorr")
-		ctx.Res.Rule = "case = (flavour of root scope, root prefix/tags, clock script, history of SubScope/Tagged/Timer/Record/report pass/Start/Stop/Histogram/NewCall/Exec calls); generated from the seed; plus long histories (hundreds of Records on one or two timers) and concurrent cases (threads obtaining the same new timer and recording on their handles, with the schedule); non-trivial = at least one value reaches a timer (Record, Stop or Exec); distinct by hash of the case"
+		ctx.Res.Rule = "case = (flavour of root scope, root prefix/tags, clock script, history of SubScope/Tagged/Timer/Record/report pass/Start/Stop/Histogram/NewCall/Exec calls); generated from the seed; plus histories that close scopes, unscheduled concurrent Records on one timer, long histories (hundreds of Records on one or two timers) and concurrent cases (threads obtaining the same new timer and recording on their handles, with the schedule); non-trivial = at least one value reaches a timer (Record, Stop or Exec); distinct by hash of the case"
 		fl := []string{"plain", "cached", "test", "both"}
 		one := func(c *c10Case) {
 			if c.Wall > 0 {
@@ -898,6 +1003,14 @@ func init() {
 				return
 			}
 			if c.Flavour < 0 || c.Flavour > 3 {
+				return
+			}
+			if len(c.Storm) == 2 {
+				fail := c10Storm(c)
+				ctx.Case(c, "", fmt.Sprintf("%s/storm", fl[c.Flavour]), hashOf(c))
+				if fail != "" {
+					ctx.Fail("every_concurrent_record_on_one_timer_delivered_exactly_once", fail, c, nil)
+				}
 				return
 			}
 			if len(c.Threads) > 0 {
@@ -943,11 +1056,15 @@ func init() {
 		}
 		for _, raw := range ctx.CorpusCases() {
 			var c c10Case
-			if json.Unmarshal(raw, &c) == nil && (len(c.Ops) > 0 || len(c.Threads) > 0) {
+			if json.Unmarshal(raw, &c) == nil && (len(c.Ops) > 0 || len(c.Threads) > 0 || len(c.Storm) == 2) {
 				one(&c)
 			}
 		}
 		for _, c := range c10Fixed() {
+			c := c
+			one(&c)
+		}
+		for _, c := range c10FixedClose() {
 			c := c
 			one(&c)
 		}
@@ -962,6 +1079,24 @@ func init() {
 		n := ctx.N(900, 12000)
 		for i := 0; i < n; i++ {
 			c := c10Gen(ctx.R, i)
+			one(&c)
+		}
+		// scopes that get closed: "Each Timer.Record(d) results in exactly one timer delivery" also on
+		// timers of closed scopes, obtained before or after the Close and before or after the pass that drops the scope
+		for i := 0; i < ctx.N(120, 2000); i++ {
+			c := c10GenClose(ctx.R, i)
+			one(&c)
+		}
+		// Records racing each other on one existing timer: "exactly one timer delivery" per Record
+		for i := 0; i < ctx.N(8, 60); i++ {
+			c := c10Case{Flavour: []int{2, 2, 0, 2, 1, 2, 3, 2}[i%8], Prefix: B(ctx.R.Pick([]string{"", "svc"})),
+				Storm: []int{ctx.R.Range(4, 8), ctx.R.Range(500, 2000)}}
+			if ctx.R.Bool() {
+				c.Ops = append(c.Ops, c10Op{Op: "sub", H: 0, Name: "db"})
+			}
+			if ctx.R.Chance(30) {
+				c.Ops = append(c.Ops, c10Op{Op: "tag", H: len(c.Ops), Tags: map[B]B{"k1": "x"}})
+			}
 			one(&c)
 		}
 		// long histories: "all record histories ... interleaved with any number of report passes"
@@ -1026,6 +1161,98 @@ func c10GenLong(r *Rng, i int) c10Case {
 	c.Ops = append(c.Ops, c10Op{Op: "pass"})
 	c.Every = len(c.Ops)/5 + 1
 	return c
+}
+
+// c10GenClose: histories in which scopes are closed (sub-scopes, in the end
+// often the root). Calls are limited to SubScope / Tagged / Timer / Record /
+// Start / Stop / report pass / Close, and to what the documentation defines:
+// no SubScope / Tagged on a closed scope (they return the no-op scope) and no
+// SubScope / Tagged that would re-create a closed scope.
+func c10GenClose(r *Rng, i int) c10Case {
+	c := c10Case{Flavour: []int{1, 3, 0, 1, 2, 3}[i%6]}
+	c.Prefix = B(r.Pick([]string{"", "p"}))
+	c.Tags = c10Tags(r, 1)
+	for j, t := 0, int64(r.Intn(1000)); j < 24; j++ {
+		c.Clock = append(c.Clock, t)
+		t += int64(r.Intn(1000000))
+	}
+	clock := c10ClockAt(c.Clock)
+	bk := newBook(&c)
+	g := bk.scopes[0].g
+	names := []string{"t", "u", "lat"}
+	at := 0
+	n := r.Range(6, 18)
+	for j := 0; j < n; j++ {
+		var o c10Op
+		switch x := r.Intn(100); {
+		case x < 14:
+			o = c10Op{Op: "sub", H: r.Intn(len(bk.scopes)), Name: B(r.Pick([]string{"s", "db", "x"}))}
+			if g.isClosed(bk.scopes[o.H].id()) || g.isClosed(bk.scopes[o.H].sub(string(o.Name)).id()) {
+				o = c10Op{Op: "pass"}
+			}
+		case x < 20:
+			o = c10Op{Op: "tag", H: r.Intn(len(bk.scopes)), Tags: c10Tags(r, 1)}
+			if g.isClosed(bk.scopes[o.H].id()) || g.isClosed(bk.scopes[o.H].tagged(tagsOf(o.Tags)).id()) {
+				o = c10Op{Op: "pass"}
+			}
+		case x < 40 || len(bk.timers) == 0:
+			o = c10Op{Op: "timer", H: r.Intn(len(bk.scopes)), Name: B(r.Pick(names))}
+			if c.Flavour == 2 && bk.collides(0, bk.scopes[o.H].metric(string(o.Name))) {
+				o = c10Op{Op: "pass"}
+			}
+		case x < 62:
+			o = c10Op{Op: "rec", H: r.Intn(len(bk.timers)), D: r.I64()}
+		case x < 72:
+			o = c10Op{Op: "pass"}
+		case x < 78:
+			o = c10Op{Op: "start", H: r.Intn(len(bk.timers))}
+		case x < 84 && len(bk.sws) > 0:
+			o = c10Op{Op: "stop", H: r.Intn(len(bk.sws))}
+		case x < 97:
+			o = c10Op{Op: "close", H: r.Intn(len(bk.scopes))}
+			if o.H == 0 && j < n-6 {
+				o.H = len(bk.scopes) - 1 // the root mostly towards the end
+			}
+		default:
+			o = c10Op{Op: "rec", H: r.Intn(len(bk.timers)), D: int64(j)}
+		}
+		at += bk.apply(o, clock, at)
+		c.Ops = append(c.Ops, o)
+	}
+	c.Ops = append(c.Ops, c10Op{Op: "pass"})
+	return c
+}
+
+// c10FixedClose: a sub-scope is closed; a timer obtained from it afterwards,
+// the same name again after the pass that drops the scope, and again after
+// the root is closed, with Records and a stopwatch on every handle.
+func c10FixedClose() []c10Case {
+	ops := []c10Op{
+		{Op: "sub", H: 0, Name: "s"},
+		{Op: "timer", H: 1, Name: "old"},
+		{Op: "close", H: 1},
+		{Op: "timer", H: 1, Name: "t"},
+		{Op: "rec", H: 1, D: 5},
+		{Op: "rec", H: 0, D: 4},
+		{Op: "pass"},
+		{Op: "timer", H: 1, Name: "t"},
+		{Op: "rec", H: 2, D: 6},
+		{Op: "rec", H: 1, D: 8},
+		{Op: "start", H: 2},
+		{Op: "close", H: 0},
+		{Op: "stop", H: 0},
+		{Op: "timer", H: 1, Name: "t"},
+		{Op: "rec", H: 3, D: 7},
+		{Op: "timer", H: 0, Name: "r"},
+		{Op: "rec", H: 4, D: 9},
+		{Op: "pass"},
+		{Op: "close", H: 1},
+	}
+	var out []c10Case
+	for _, f := range []int{1, 3, 0, 2} {
+		out = append(out, c10Case{Flavour: f, Prefix: "p", Clock: []int64{100, 175}, Ops: ops})
+	}
+	return out
 }
 
 // c10FixedLong: 300 Records on one timer with a report pass every 64 calls, per flavour.
